@@ -192,7 +192,7 @@ Lemma step_deq_shape s e s' : step_deq s e = Some s' ->
     s' = BC (conn_no s) se (clos s) (gproc s) (gdeq s) (gack s) (gcl s) (ph s) (pp s) d (ap s) (lp s)
             dy (will s) (cw s) (cpp s) (cps s) t1 t2 t3 (ackq s).
 Proof.
-  intros H. unfold step_deq, take_deq in H. destruct (dp s) eqn:Edp; destruct e; try discriminate H; bm H; inv_some H;
+  intros H. unfold step_deq, take_deq, guard in H. destruct (dp s) eqn:Edp; destruct e; try discriminate H; bm H; inv_some H;
     repeat match goal with |- context [match ?b with _ => _ end] => destruct b end;
     shape_tac.
 Qed.
@@ -203,7 +203,7 @@ Lemma step_ack_shape s e s' : step_ack s e = Some s' ->
     s' = BC (conn_no s) (sess s) (clos s) (gproc s) (gdeq s) (gack s) (gcl s) (ph s) (pp s) (dp s) a (lp s)
             dy (will s) (cw s) (cpp s) (cps s) t1 t2 t3 q.
 Proof.
-  intros H. unfold step_ack in H. destruct (ap s) eqn:Eap; destruct e; try discriminate H; bm H; inv_some H;
+  intros H. unfold step_ack, guard in H. destruct (ap s) eqn:Eap; destruct e; try discriminate H; bm H; inv_some H;
     unfold ack_token_back; repeat match goal with |- context [match ?p with _ => _ end] => destruct p end;
     shape_tac.
 Qed.
